@@ -383,6 +383,20 @@ thread_local! {
 pub type TaskOut = (String, Vec<u8>);
 pub type Task = Pin<Box<dyn Future<Output = TaskOut>>>;
 
+/// Read until `buf` holds `n` bytes or the peer has closed (a peer whose negotiation failed — the
+/// documented `V1Lazy` pitfall — sends nothing).
+async fn read_upto<R: AsyncRead + Unpin>(io: &mut R, buf: &mut Vec<u8>, n: usize) -> io::Result<()> {
+    let mut chunk = [0u8; 64];
+    while buf.len() < n {
+        let want = (n - buf.len()).min(chunk.len());
+        match io.read(&mut chunk[..want]).await? {
+            0 => break,
+            k => buf.extend_from_slice(&chunk[..k]),
+        }
+    }
+    Ok(())
+}
+
 /// What the test application does with a negotiated stream: write the payload, flush, wait for the
 /// negotiation to complete (relevant for the lazy dialer), close the write side, read to the end.
 async fn after<R: AsyncRead + AsyncWrite + Unpin>(
@@ -394,8 +408,7 @@ async fn after<R: AsyncRead + AsyncWrite + Unpin>(
     let mut buf = Vec::new();
     if mode == AppMode::ReadFirst {
         // the request arrives before anything is written (or flushed) by the application
-        buf.resize(expect, 0);
-        if let Err(e) = io.read_exact(&mut buf).await {
+        if let Err(e) = read_upto(&mut io, &mut buf, expect).await {
             return (format!("err:app-read:{}", io_kind(e.kind())), Vec::new());
         }
     }
@@ -423,8 +436,7 @@ async fn after<R: AsyncRead + AsyncWrite + Unpin>(
     };
     if mode == AppMode::WriteReadClose {
         // the peer's payload arrives while both write sides are still open
-        buf.resize(expect, 0);
-        if let Err(e) = io.read_exact(&mut buf).await {
+        if let Err(e) = read_upto(&mut io, &mut buf, expect).await {
             return (format!("err:app-read:{}", io_kind(e.kind())), Vec::new());
         }
     }
